@@ -16,9 +16,9 @@ namespace EraVerif.Props.C08gen
 open EraVerif.Model.Store
 open EraVerif.Gen.StoreConst
 namespace G
-export EraVerif.Gen.StoreFns (BlockStoreState BlockStore whileFuel idx0 prevNum truncate_cache truncate_cache' try_push update_persisted)
+export EraVerif.Gen.StoreFns (BlockStoreState BlockStore whileFuel idx0 prevNum truncate_cache truncate_cache' try_push update_persisted block)
 end G
-open EraVerif.Gen.StoreFns (BlockStoreState BlockStore whileFuel idx0 prevNum truncate_cache truncate_cache' try_push update_persisted)
+open EraVerif.Gen.StoreFns (BlockStoreState BlockStore whileFuel idx0 prevNum truncate_cache truncate_cache' try_push update_persisted block)
 
 /-- `BlockNumber::next` below `u64::MAX` -/
 def bnOk (n : Nat) : Except String Nat := pure (n + 1)
@@ -149,6 +149,20 @@ theorem gen_update_persisted_eq (s : Store) (p : Range) :
     · by_cases h2 : Range.next ⟨qf, ql⟩ < Range.next ⟨f, l⟩
       · simp [gen_next_eq', gen_truncate_eq', h0, h1, h2, pure, Except.pure, bind, Except.bind]
       · simp [gen_next_eq', gen_truncate_eq', h0, h1, h2, pure, Except.pure, bind, Except.bind]
+
+/-- regenerated `BlockStore::block` (the cache lookup behind `get_block` and the hand-off task) = `Store.block`:
+the cache is indexed from its front block's number; nothing else (not `queued.first`, not `persisted`) enters -/
+theorem gen_block_eq (bn : Nat → Except String Nat) (s : Store) (n : Nat) :
+    block Block.num bn (gS s) n = .ok (s.block n) := by
+  unfold block Store.block
+  cases h : s.cache with
+  | nil => simp [gS, h, pure, Except.pure]
+  | cons f rest =>
+    by_cases hn : n < f.num
+    · have : ¬ f.num ≤ n := by omega
+      simp [gS, h, hn, this, pure, Except.pure]
+    · have : f.num ≤ n := by omega
+      simp [gS, h, hn, this, pure, Except.pure]
 
 /-- non-vacuity: the regenerated programs run (a 101-block cache whose front is durable loses exactly that block) -/
 example : (try_push (β := Nat) id bnOk { queued := ⟨0, some 99⟩, persisted := ⟨0, some 0⟩, cache := List.range 100 } 100).toOption.map
